@@ -394,6 +394,23 @@ def searcher(ctx, cfg, b, counts):
     counts["sum"] += 1
     if not ((np.abs(Uf - (Cf + Mf)) <= 4 * U * (np.abs(Cf) + np.abs(Mf))).all() and (np.abs(Ud - (Cd + Md)) <= 4 * U * (np.abs(Cd) + np.abs(Md))).all()):
         viol("uncertainty-sum", "uncertainty is not covariance + mean_covariance", {})
+    # ---- history: one NumPy buffer refilled in place between calls - every answer is about the buffer's CURRENT content
+    #      (bitwise comparison with the call on a fresh copy of that content; no tolerance)
+    counts["buffer_reuse"] = counts.get("buffer_reuse", 0) + 1
+    buf = np.array(Xq, dtype=float, copy=True)
+    for method in ("covariance", "mean_covariance", "uncertainty"):
+        call(p, cfg, method, buf, True)
+    Xalt = np.array(Xq[::-1], dtype=float, copy=True)
+    Xalt[:, : Xq.shape[1] - (1 if cfg["flavour"] == "time" else 0)] += 0.25
+    buf[...] = Xalt
+    for method in ("covariance", "mean_covariance", "uncertainty"):
+        got = call(p, cfg, method, buf, True)
+        want = call(p, cfg, method, np.array(Xalt, copy=True), True)
+        if not np.array_equal(got, want, equal_nan=True):
+            viol("buffer-reuse|" + method, "%s(buf) after the NumPy buffer was refilled in place differs from the call on a fresh copy of the same points" % method,
+                 {"sequence": "buf = Xnew.copy(); p.%s(buf, diag=True); buf[...] = Xalt; p.%s(buf, diag=True) vs p.%s(Xalt.copy(), diag=True)" % (method, method, method),
+                  "Xalt": Xalt.tolist(), "got": got.tolist(), "want": want.tolist()})
+            break
     # ---- W is the linear propagator of the stated input covariance factor
     Yf = b["Yf"]
     counts["W_equation"] += 1
